@@ -107,7 +107,18 @@ def main():
                                    "git apply patch.diff; cargo test --workspace --no-fail-fast --offline   # 66+3 pass",
                                    "cargo test --offline --test seed_demo   # patched: fail", res["check"]["cmd"]],
                     "check_result": res["check"], "detected": res["detected"]}
-            json.dump(meta, open(os.path.join(dst, "meta.json"), "w"), indent=1)
+            # keep earlier judgements (a seed missed at first and caught after the monitor was strengthened)
+            mp = os.path.join(dst, "meta.json")
+            hist = []
+            if os.path.exists(mp):
+                try:
+                    old = json.load(open(mp))
+                    hist = old.get("history", []) + [{"verif_commit": old.get("verif_commit"), "detected": old.get("detected"), "check_result": old.get("check_result")}]
+                except Exception:
+                    pass
+            meta["verif_commit"] = sh("git -C %s rev-parse --short HEAD" % ROOT)[1].strip()
+            meta["history"] = hist
+            json.dump(meta, open(mp, "w"), indent=1)
     finally:
         if not keep:
             sh("git -C /repo worktree remove --force %s" % wt)
